@@ -76,7 +76,7 @@ func denotedInt(k kind, body string) *big.Int {
 type decoder struct {
 	name string
 	// dec decodes tok and returns (value as big.Int, extra printable, err)
-	dec func(tok []byte) (*big.Int, error)
+	dec      func(tok []byte) (*big.Int, error)
 	min, max *big.Int
 	emptyOK  bool
 }
@@ -89,9 +89,21 @@ var (
 )
 
 var intDecoders = []decoder{
-	{"JsInt64", func(b []byte) (*big.Int, error) { var v tex.JsInt64 = 77; err := v.UnmarshalJSON(b); return big.NewInt(int64(v)), err }, minI64, maxI64, true},
-	{"JsUInt64", func(b []byte) (*big.Int, error) { var v tex.JsUInt64 = 77; err := v.UnmarshalJSON(b); return new(big.Int).SetUint64(uint64(v)), err }, zero, maxU64, true},
-	{"UnixStamp", func(b []byte) (*big.Int, error) { var v tex.UnixStamp = 77; err := v.UnmarshalJSON(b); return big.NewInt(int64(v)), err }, minI64, maxI64, true},
+	{"JsInt64", func(b []byte) (*big.Int, error) {
+		var v tex.JsInt64 = 77
+		err := v.UnmarshalJSON(b)
+		return big.NewInt(int64(v)), err
+	}, minI64, maxI64, true},
+	{"JsUInt64", func(b []byte) (*big.Int, error) {
+		var v tex.JsUInt64 = 77
+		err := v.UnmarshalJSON(b)
+		return new(big.Int).SetUint64(uint64(v)), err
+	}, zero, maxU64, true},
+	{"UnixStamp", func(b []byte) (*big.Int, error) {
+		var v tex.UnixStamp = 77
+		err := v.UnmarshalJSON(b)
+		return big.NewInt(int64(v)), err
+	}, minI64, maxI64, true},
 	{"JsUnixTime", func(b []byte) (*big.Int, error) {
 		v := tex.JsUnixTime(time.Unix(77, 0))
 		err := v.UnmarshalJSON(b)
@@ -330,7 +342,9 @@ func roundTrips(c *seq.Ctx) {
 		if bad != "" {
 			sig = name + " round trip fails via " + codecName
 		}
-		c.Case("rt/"+name+"/"+codecName+"/"+fmt.Sprint(bad == ""), bad, sig, func() interface{} { return map[string]interface{}{"type": name, "codec": codecName, "value": fmt.Sprint(val)} })
+		c.Case("rt/"+name+"/"+codecName+"/"+fmt.Sprint(bad == ""), bad, sig, func() interface{} {
+			return map[string]interface{}{"type": name, "codec": codecName, "value": fmt.Sprint(val)}
+		})
 	}
 	for _, cd := range codecs {
 		for _, v := range i64s {
